@@ -521,3 +521,163 @@ Theorem C01_rewrite_mixed_refuted :
      Some [["xpl foo"]; ["xpl foo"; "ent 1"]; ["xpl foo"; "end-list"]]).
 Proof. vm_compute. repeat split; reflexivity. Qed.
 Print Assumptions C01_rewrite_mixed_refuted.
+
+(* ====================================================================================================
+   The SHIPPED rulebooks (coq/Gen/Src_rules.v: the texts the real provider renders for each canonical
+   hardware string, as RAW lines; parsed in Coq by Model/ShippedText.v + Model/PatternT.v / PatternY.v).
+   Matcher: the second language extension [ym] (Spec/P_Shipped.v), for which the generic pipeline models
+   and the generic proofs (they hold for every matcher) are instantiated: [wf_A_y], [y_patch], [y_exec],
+   [y_expected] are P_C01.wf_A, the patch of diff_and_patch, Device.exec and expected for that matcher.
+   ==================================================================================================== *)
+From Annet Require Import Model.PatternY Model.ShippedText Spec.P_Shipped Gen.Src_rules
+     Proofs.ConvergeMainQ Proofs.ShippedRules Proofs.ShippedTables.
+
+(* C01_shipped_order_sound.  The structural condition [shipped_cond] on (ordering rulebook, patching rule set):
+   every rule of the rule set, at any depth, whose logic is undo_redo has a pattern the test [mkqb] accepts
+   against the patterns of ALL %order_reverse rules of the ordering rulebook (any depth).  If the test is sound
+   for the pattern model (an accepted pattern has no removal command that an %order_reverse pattern matches),
+   then for ALL configurations old / new of the Tier-A domain the patch computed WITH that ordering rulebook -
+   %order_reverse rules included - is computed without error and, executed on old, reaches expected(R, old, new);
+   the state reached is again in the domain.  I.e. the conclusion of C01_expected without the hypothesis
+   [order_ok]: only an undo_redo slot emits its removal together with its re-creation, and a removal that no
+   %order_reverse rule matches keeps the key (-o, rule, false) <= (o', rule, true).
+   Proof: Proofs/ConvergeMainQ.v (the induction of ConvergeMain.v with an abstract invariant in place of
+   "no %order_reverse rule") + Proofs/ShippedRules.v (the invariant: get_order when no %order_reverse rule
+   fires, merge_dicts of rule sets and the rules get_order hands down preserve the condition). *)
+Theorem C01_shipped_order_sound :
+  forall mkqb : string -> list string -> string -> bool,
+  (forall prefix OR pp, mkqb prefix OR pp = true ->
+     forall po key, In po OR -> ym po (format_template (make_reverse pp prefix) key) = None) ->
+  forall v R ord, block_family (v_family v) = true -> shipped_cond (mkqb (v_reverse v)) ord R = true ->
+  forall old new, wf_A_y v R old new = true ->
+  exists pt, y_patch v R ord old new = POk pt /\
+    let dev := y_exec v R (cmd_paths (v_family v) pt) old in
+    sim dev (y_expected R old new) /\ ConvergeMain.good ym R (merge old new) dev.
+Proof. exact shipped_converges. Qed.
+Print Assumptions C01_shipped_order_sound.
+
+(* ... for any matcher, any vendor constants (the statement the instantiation above comes from) *)
+Theorem C01_order_invariant_sound :
+  forall rmatch rsrc rrev block_exit rreverse is_exit,
+  (is_empty block_exit = true \/ is_exit block_exit = true) ->
+  forall (qb : string -> bool) (OR : list string),
+  (forall pp, qb pp = true -> forall po key, In po OR -> rmatch po (rreverse pp key) = None) ->
+  forall fam rs U fo fn ord,
+  block_family fam = true -> (forall ex, In ex (family_exits fam) -> is_exit ex = true) ->
+  ConvergeMain.uok rmatch rreverse is_exit rs U -> ConvergeMain.good rmatch rs U fo -> ConvergeMain.good rmatch rs U fn ->
+  Qs qb OR rs ord ->
+  exists pt, make_patch rmatch rsrc rrev block_exit rreverse (make_pre (make_diff rmatch rs fo fn)) ord = POk pt /\
+    let dev := exec rmatch rreverse is_exit rs (cmd_paths fam pt) fo in
+    sim dev (expected rmatch rs fo fn) /\ ConvergeMain.good rmatch rs U dev.
+Proof. exact shipped_converge_exec. Qed.
+Print Assumptions C01_order_invariant_sound.
+
+(* C01_shipped_order_ok.  By computation over the finite table, re-checked whenever a rule text changes:
+   (1) every shipped .rul / .order text is parsed by the model's parser (no %param validator raises);
+   (2) with the literal-word test [lit_quiet] every shipped (ordering, patching) pair satisfies the condition;
+   (3) with NO pattern test at all ([no_test]: the rule set has no undo_redo rule, or the ordering rulebook has
+       no %order_reverse rule) every pair satisfies it except those of vendor huawei, whose rule file has
+       undo_redo rules (through huawei.misc.undo_redo, whose body delegates to common.undo_redo: Src_logic_alias)
+       and whose ordering file has 51 %order_reverse rules;
+   (4) the table is not degenerate. *)
+Theorem C01_shipped_order_ok :
+  forallb (fun h => match shipped_rset h, shipped_ordering h with Some _, Some _ => true | _, _ => false end) Src_shipped = true /\
+  forallb (shipped_entry_ok lit_quiet) Src_shipped = true /\
+  forallb (fun h => is_huawei h || shipped_entry_ok no_test h) Src_shipped = true /\
+  (existsb (fun h => negb (is_huawei h) && match shipped_orev h with [] => false | _ => true end) Src_shipped = true /\
+   existsb (fun h => negb (is_huawei h) && match shipped_undo_redo h with [] => false | _ => true end) Src_shipped = true /\
+   existsb (fun h => is_huawei h && match shipped_orev h, shipped_undo_redo h with _ :: _, _ :: _ => true | _, _ => false end) Src_shipped = true).
+Proof. exact (conj shipped_all_compile (conj shipped_all_ok_lit (conj shipped_all_ok_notest shipped_nonvacuous))). Qed.
+Print Assumptions C01_shipped_order_ok.
+
+(* C01_shipped_converges.  Hence, with no hypothesis left, for every shipped rulebook pair that is not huawei's
+   (cisco, nexus, iosxr with their %order_reverse rules; arista with its undo_redo rules; aruba, b4com, h3c,
+   juniper, ribbon, nokia, routeros, pc, optixtrans), every block formatter family, ALL old / new of the
+   Tier-A domain: the patch computed with the shipped ordering rulebook converges. *)
+Theorem C01_shipped_converges :
+  forall h, In h Src_shipped -> is_huawei h = false ->
+  forall R ord fam, shipped_rset h = Some R -> shipped_ordering h = Some ord -> block_family fam = true ->
+  let v := Vendor (sh_reverse h) (sh_exit h) fam in
+  forall old new, wf_A_y v R old new = true ->
+  exists pt, y_patch v R ord old new = POk pt /\
+    let dev := y_exec v R (cmd_paths fam pt) old in
+    sim dev (y_expected R old new) /\ ConvergeMain.good ym R (merge old new) dev.
+Proof.
+  intros h Hin Hh R ord fam HR HO Hf v old new Hw.
+  assert (Hok : shipped_entry_ok no_test h = true).
+  { pose proof shipped_all_ok_notest as H. rewrite forallb_forall in H. specialize (H h Hin). rewrite Hh in H. exact H. }
+  apply (shipped_entry_converges no_test) with (h := h); auto.
+  intros prefix OR pp H po key Hi. destruct OR; [destruct Hi | discriminate].
+Qed.
+Print Assumptions C01_shipped_converges.
+
+(* ... and for huawei (CE, NE, "Huawei DC") under the one hypothesis that the literal-word test is sound for the
+   pattern model.  PARTIAL: that hypothesis is not proved.  Missing: the word-level reading of
+   format_template (make_reverse pp prefix) key for the patterns of Model/PatternY.v (C07Y_reverse_statement is
+   open; C07X_reverse covers the PatternX patterns) composed with C07Y_match_iff ("the i-th word of a matched row is
+   the i-th literal of the pattern").  The check tests the hypothesis on the real regexps (evidence:
+   shipped_rules.quiet_pairs_tested). *)
+Definition C01_lit_quiet_sound_statement : Prop :=
+  forall prefix OR pp, lit_quiet prefix OR pp = true ->
+  forall po key, In po OR -> ym po (format_template (make_reverse pp prefix) key) = None.
+Theorem C01_shipped_converges_partial :
+  C01_lit_quiet_sound_statement ->
+  forall h, In h Src_shipped ->
+  forall R ord fam, shipped_rset h = Some R -> shipped_ordering h = Some ord -> block_family fam = true ->
+  let v := Vendor (sh_reverse h) (sh_exit h) fam in
+  forall old new, wf_A_y v R old new = true ->
+  exists pt, y_patch v R ord old new = POk pt /\
+    let dev := y_exec v R (cmd_paths fam pt) old in
+    sim dev (y_expected R old new) /\ ConvergeMain.good ym R (merge old new) dev.
+Proof.
+  intros Hs h Hin R ord fam HR HO Hf v old new Hw.
+  assert (Hok : shipped_entry_ok lit_quiet h = true).
+  { pose proof shipped_all_ok_lit as H. rewrite forallb_forall in H. exact (H h Hin). }
+  apply (shipped_entry_converges lit_quiet Hs h R ord fam Hok HR HO Hf old new Hw).
+Qed.
+Print Assumptions C01_shipped_converges_partial.
+
+(* Stated, not proved: the literal form of the ordering condition (no removal after a direct command of its slot in
+   the patch itself) under [shipped_cond].  What is proved above is what [order_ok] is FOR (convergence).  Missing:
+   a fourth conjunct in the claim of Proofs/ConvergeMainQ.v (the per-slot lemma slot_all already gives "the items of
+   an undo_redo slot are [removal; re-creation] in the sorted level"; the children need the run_added / run_removed /
+   run_both lemmas to hand the conjunct up). *)
+Definition C01_shipped_undo_first_statement : Prop :=
+  forall mkqb : string -> list string -> string -> bool,
+  (forall prefix OR pp, mkqb prefix OR pp = true ->
+     forall po key, In po OR -> ym po (format_template (make_reverse pp prefix) key) = None) ->
+  forall v R ord, block_family (v_family v) = true -> shipped_cond (mkqb (v_reverse v)) ord R = true ->
+  forall old new, wf_A_y v R old new = true -> order_ok_y v R ord old new = true.
+
+(* non-vacuity on a shipped pair: B4com (rule `sflow *`, default logic), one row replaced, one added, one unknown *)
+Definition c01_sh_v := Vendor "no" "exit" (FBlockExit "exit").
+Definition c01_sh_old : forest := [("sflow 1", T []); ("unknown thing", T [])].
+Definition c01_sh_new : forest := [("sflow 2", T []); ("sflow 3", T [])].
+Example C01_shipped_in_table : In hw_B4com Src_shipped.
+Proof. unfold Src_shipped. cbn [In]. auto 20. Qed.
+Example C01_shipped_converges_nonvacuous :
+  is_huawei hw_B4com = false /\
+  sh_reverse hw_B4com = "no" /\ sh_exit hw_B4com = "exit" /\
+  match shipped_rset hw_B4com, shipped_ordering hw_B4com with
+  | Some R, Some ord =>
+    wf_A_y c01_sh_v R c01_sh_old c01_sh_new = true /\
+    option_map (cmd_paths (FBlockExit "exit")) (match y_patch c01_sh_v R ord c01_sh_old c01_sh_new with POk p => Some p | PErr => None end)
+      = Some [["no sflow 1"]; ["sflow 2"]; ["sflow 3"]]
+  | _, _ => False
+  end.
+Proof. vm_compute. repeat split; reflexivity. Qed.
+
+(* A limit of the Tier-A domain on shipped rulebooks, by example: huawei.rul, cisco.rul, arista.rul, aruba.rul and
+   pc.rul end in the catch-all rules `<negation> ~ %global` and `~ %global`.  Every row, removal commands included,
+   is then known to the rule set, and [univ_ok] ("the removal command of a known row is not matched by a rule")
+   is false for every configuration with a known row: wf_A_y, hence every C01 theorem, says nothing there.  The
+   device semantics would have to recognise a removal command before consulting the catch-all. *)
+Definition c01_sh_hv := Vendor "undo" "quit" FHuawei.
+Example C01_shipped_catchall_outside_domain :
+  match shipped_rset hw_Huawei_CE6870 with
+  | Some R =>
+    option_map mi_raw (slot_of ym R "undo sysname") = Some "undo ~ %global" /\
+    wf_A_y c01_sh_hv R [("sysname a", T [])] [("sysname b", T [])] = false
+  | None => False
+  end.
+Proof. vm_compute. split; reflexivity. Qed.
